@@ -132,6 +132,12 @@ def main():
         if not a.no_proof:
             proof = proof_step(pid, thorough=(a.tier == "thorough"))
         mod.run(R)
+        if a.tier == "thorough" and not a.no_proof:
+            n, bad = common.kernel_crosscheck(R.model, os.path.join(R.tmp, "xcheck"))
+            R.extra["in_kernel_crosscheck"] = {"requests_reevaluated_by_vm_compute": n, "mismatches": bad}
+            for b in bad:
+                R.disagree("extracted binary vs in-kernel evaluation (vm_compute)", b, b.get("binary_reply"),
+                           "differs")
     except Exception:  # noqa: BLE001
         crashed = traceback.format_exc()
     finally:
